@@ -105,6 +105,9 @@ type Opts struct {
 	ArrayLens []int
 	// FlipBools negates generated bool outputs.
 	FlipBools bool
+	// Files: untyped map outputs may carry string values (which file runs
+	// turn into paths).
+	Files bool
 	// NullPct: percentage of positions (below the top level of bool outputs)
 	// that become null.
 	NullPct int
@@ -150,6 +153,9 @@ func genValue(r *rng, u *mrogen.Universe, prog *mrogen.Program, ty mrogen.Ty, o 
 		obj := jsonx.NewObj()
 		for i, n := 0, r.intn(3); i < n; i++ {
 			obj.Set("m"+strconv.Itoa(r.intn(5)), json.Number(strconv.Itoa(r.intn(100))))
+		}
+		if o.Files && r.intn(2) == 0 {
+			obj.Set("mp", "s"+strconv.Itoa(r.intn(100000)))
 		}
 		return obj
 	}
